@@ -57,6 +57,23 @@ def directed(default_params):
         {"op": "reg.generic", "kw": {"occ_a": 15, "occ": 3}},
         {"op": "reg.generic", "kw": {"occ_a": 2, "occ_b": 2, "occ": 2}},
     ]))
+    # D3 deep generations: the pool reaches two- and three-digit generations, names of the
+    # current (partly consumed) and of later generations are requested explicitly in between
+    for G in (9, 10, 11, 12, 20, 30, 100):
+        n = 7 * (G - 3) + 3   # generations 3..G exist, 4 names of generation G are pending
+        nv = 8 * (G - 3) + 2
+        g = str(G)
+        out.append((f"deep-generation-{G}", P, [
+            {"op": "reg.generic", "kw": {"occ": n, "virt": nv}},
+            {"op": "reg.get", "names": ["m" + g, "o" + g, "k" + str(G + 1), "e" + g, "h" + g,
+                                        "c" + str(G + 2)],
+             "spins": [""] * 6, "via": "get_symbols"},
+            {"op": "reg.generic", "kw": {"occ": 9, "virt": 11}},
+            {"op": "reg.get", "names": ["m" + g, "k" + str(G + 1), "j" + str(G + 3)],
+             "spins": [""] * 3, "via": "get_indices"},
+            {"op": "reg.generic", "kw": {"occ": 15, "virt": 17}},
+            _expr_step(), {"op": "rename.gen", "slot": 0},
+        ]))
     # D4 cycles and chains in every insertion order of the dict
     shapes = {
         "3cycle": [["i", "j"], ["j", "k"], ["k", "i"]],
@@ -212,12 +229,13 @@ def run(tier, seed):
             if k is not None:
                 if key not in seen_sigs:
                     log(f"KNOWN-FINDING: property={PROP} {k.get('what')}")
-                seen_sigs[key] = seen_sigs.get(key, 0) + 1
+                    seen_sigs[key] = {"signature": sig, "count": 0, "known": True}
+                seen_sigs[key]["count"] += 1
                 continue
             if key in seen_sigs:
-                seen_sigs[key] += 1
+                seen_sigs[key]["count"] += 1
                 continue
-            seen_sigs[key] = 1
+            seen_sigs[key] = {"signature": sig, "count": 1, "known": False}
             if len(reported) < 4:
                 path = driver.report_violation(PROP, job, res, v)
                 if path is None:
@@ -226,6 +244,8 @@ def run(tier, seed):
                     reported.append({"replay": path, "signature": sig})
                     exit_code = 1
             else:
+                log(f"VIOLATION property={PROP} replay=none (further distinct signature, not "
+                    f"minimised) {sig}")
                 exit_code = 1
     return finish(tier, seed, all_jobs, all_results, t0, n_directed, reported, exit_code, trip,
                   seen_sigs)
@@ -315,7 +335,7 @@ def finish(tier, seed, jobs, results, t0, n_directed, reported, exit_code, trip,
                                     "that"},
         "components": driver.REAL_STUB,
         "determinism_tripwire": trip,
-        "violation_signatures": sigs or {},
+        "violation_signatures": list((sigs or {}).values()),
         "replays": reported,
         "explanation": "deterministic simulation of the process-global index registry and of "
                        "renaming operations under seeded histories, hash seeds, Dummy bases, "
